@@ -125,5 +125,888 @@ Proof.
     apply skipn_app_exact. rewrite !app_length. lia.
   - unfold spec_parse_header. rewrite Hlen.
     replace (61 + length recs <? 61)%nat with false by (symmetry; apply Nat.ltb_ge; lia).
-    f_equal. f_equal; f_equal; slice_solve.
+    set (X := a0 ++ a1 ++ a2 ++ a3 ++ a4 ++ a5 ++ a6 ++ a7 ++ a8 ++ a9 ++ a10 ++ a11 ++ a12 ++ recs).
+    assert (S0: slice 0 8 X = a0) by (unfold X; slice_solve).
+    assert (S1: slice 8 4 X = a1) by (unfold X; slice_solve).
+    assert (S2: slice 12 4 X = a2) by (unfold X; slice_solve).
+    assert (S3: slice 16 1 X = a3) by (unfold X; slice_solve).
+    assert (S4: slice 17 4 X = a4) by (unfold X; slice_solve).
+    assert (S5: slice 21 2 X = a5) by (unfold X; slice_solve).
+    assert (S6: slice 23 4 X = a6) by (unfold X; slice_solve).
+    assert (S7: slice 27 8 X = a7) by (unfold X; slice_solve).
+    assert (S8: slice 35 8 X = a8) by (unfold X; slice_solve).
+    assert (S9: slice 43 8 X = a9) by (unfold X; slice_solve).
+    assert (S10: slice 51 2 X = a10) by (unfold X; slice_solve).
+    assert (S11: slice 53 4 X = a11) by (unfold X; slice_solve).
+    assert (S12: slice 57 4 X = a12) by (unfold X; slice_solve).
+    rewrite S0, S1, S2, S3, S4, S5, S6, S7, S8, S9, S10, S11, S12. reflexivity.
 Qed.
+
+(* ------------------------------------------------------------------------------------------ *)
+(* shape of the two halves of the header *)
+Lemma write_pre_inv bo bl ple magic crc pre : write_pre bo bl ple magic crc = Ok pre ->
+  exists b0 b1 b2 b3 b4,
+    write_int 8 true bo = Ok b0 /\ write_int 4 true bl = Ok b1 /\ write_int 4 true ple = Ok b2 /\
+    write_int 1 true magic = Ok b3 /\ write_int 4 false crc = Ok b4 /\
+    pre = b0 ++ b1 ++ b2 ++ b3 ++ b4.
+Proof.
+  unfold write_pre. intros H.
+  apply cat_cons_inv in H. destruct H as (b0 & t0 & H0 & H & ->).
+  apply cat_cons_inv in H. destruct H as (b1 & t1 & H1 & H & ->).
+  apply cat_cons_inv in H. destruct H as (b2 & t2 & H2 & H & ->).
+  apply cat_cons_inv in H. destruct H as (b3 & t3 & H3 & H & ->).
+  apply cat_cons_inv in H. destruct H as (b4 & t4 & H4 & H & ->).
+  apply cat_nil_inv in H. subst t4. rewrite app_nil_r.
+  exists b0, b1, b2, b3, b4. repeat split; assumption.
+Qed.
+
+Lemma write_post_inv at_ lod bts mts pid pe bseq boff rs post :
+  write_post at_ lod bts mts pid pe bseq boff rs = Ok post ->
+  exists c0 c1 c2 c3 c4 c5 c6 c7 recs,
+    write_int 2 true at_ = Ok c0 /\ write_int 4 true lod = Ok c1 /\ write_int 8 true bts = Ok c2 /\
+    write_int 8 true mts = Ok c3 /\ write_int 8 true pid = Ok c4 /\ write_int 2 true pe = Ok c5 /\
+    write_int 4 true bseq = Ok c6 /\ write_int 4 true (zlen rs) = Ok c7 /\
+    cat (map (fun r => write_record r bts boff) rs) = Ok recs /\
+    post = c0 ++ c1 ++ c2 ++ c3 ++ c4 ++ c5 ++ c6 ++ c7 ++ recs.
+Proof.
+  unfold write_post. intros H.
+  apply cat_cons_inv in H. destruct H as (c0 & t0 & H0 & H & ->).
+  apply cat_cons_inv in H. destruct H as (c1 & t1 & H1 & H & ->).
+  apply cat_cons_inv in H. destruct H as (c2 & t2 & H2 & H & ->).
+  apply cat_cons_inv in H. destruct H as (c3 & t3 & H3 & H & ->).
+  apply cat_cons_inv in H. destruct H as (c4 & t4 & H4 & H & ->).
+  apply cat_cons_inv in H. destruct H as (c5 & t5 & H5 & H & ->).
+  apply cat_cons_inv in H. destruct H as (c6 & t6 & H6 & H & ->).
+  apply cat_cons_inv in H. destruct H as (c7 & t7 & H7 & H & ->).
+  apply cat_cons_inv in H. destruct H as (recs & t8 & H8 & H & ->).
+  apply cat_nil_inv in H. subst t8. rewrite app_nil_r.
+  destruct (in_int_range 4 true (zlen rs)); [|discriminate].
+  exists c0, c1, c2, c3, c4, c5, c6, c7, recs. repeat split; assumption.
+Qed.
+
+Lemma range_s4 z : in_int_range 4 true z = true <-> - 2 ^ 31 <= z <= 2 ^ 31 - 1.
+Proof.
+  rewrite in_int_range_spec. cbv [int_lo int_hi].
+  change (8 * Z.of_nat 4 - 1) with 31. reflexivity.
+Qed.
+Lemma range_s8 z : in_int_range 8 true z = true <-> - 2 ^ 63 <= z <= 2 ^ 63 - 1.
+Proof.
+  rewrite in_int_range_spec. cbv [int_lo int_hi].
+  change (8 * Z.of_nat 8 - 1) with 63. reflexivity.
+Qed.
+
+(* everything the later theorems need to know about a successfully written new batch *)
+Lemma write_new_batch_shape nb bs first rest :
+  n_records nb = first :: rest -> write_new_batch nb = Ok bs ->
+  exists f recs, hdr_lens f /\ bs = hdr_cat f recs /\
+    cat (map (fun r => write_record r (millis_of (r_timestamp first)) (r_offset first))
+             (n_records nb)) = Ok recs /\
+    zlen bs <= 2 ^ 31 + 11 /\
+    sint 8 (f0 f) = r_offset first /\ sint 4 (f1 f) = zlen bs - 12 /\
+    sint 4 (f2 f) = n_partition_leader_epoch nb /\ sint 1 (f3 f) = 2 /\
+    be_val (f4 f) = crc32c (skipn 21 bs) /\ sint 2 (f5 f) = n_attributes nb /\
+    sint 4 (f6 f) = r_offset (last (n_records nb) first) - r_offset first /\
+    sint 8 (f7 f) = millis_of (r_timestamp first) /\
+    sint 8 (f8 f) = millis_of (max_timestamp_us (n_records nb)) /\
+    sint 8 (f9 f) = n_producer_id nb /\ sint 2 (f10 f) = n_producer_epoch nb /\
+    sint 4 (f11 f) = n_base_sequence nb /\ sint 4 (f12 f) = zlen (n_records nb).
+Proof.
+  intros Hrs H. unfold write_new_batch in H. rewrite Hrs in H. rewrite <- Hrs in H.
+  apply rbind_inv in H. destruct H as (lod & Hlod & H). apply phantom_inv in Hlod. destruct Hlod as [_ ->].
+  apply rbind_inv in H. destruct H as (bts & Hbts & H). apply phantom_inv in Hbts. destruct Hbts as [_ ->].
+  apply rbind_inv in H. destruct H as (mts & Hmts & H). apply phantom_inv in Hmts. destruct Hmts as [_ ->].
+  apply rbind_inv in H. destruct H as (post & Hpost & H).
+  apply rbind_inv in H. destruct H as (blen & Hblen & H). apply phantom_inv in Hblen. destruct Hblen as [Hbr ->].
+  apply rbind_inv in H. destruct H as (crc & Hcrc & H). apply phantom_inv in Hcrc. destruct Hcrc as [_ ->].
+  apply cat2_inv in H. destruct H as (pre & post' & Hpre & Hp & ->).
+  assert (post' = post) as -> by congruence. clear Hp.
+  apply write_pre_inv in Hpre. destruct Hpre as (b0 & b1 & b2 & b3 & b4 & W0 & W1 & W2 & W3 & W4 & ->).
+  apply write_post_inv in Hpost.
+  destruct Hpost as (c0 & c1 & c2 & c3 & c4 & c5 & c6 & c7 & recs & V0 & V1 & V2 & V3 & V4 & V5 & V6 & V7 & Hrecs & Hpost).
+  apply write_int_sint in W0, W1, W2, W3, V0, V1, V2, V3, V4, V5, V6, V7; try lia.
+  apply write_int_uval in W4.
+  destruct W0 as [W0 L0], W1 as [W1 L1], W2 as [W2 L2], W3 as [W3 L3], W4 as [W4 L4].
+  destruct V0 as [V0 M0], V1 as [V1 M1], V2 as [V2 M2], V3 as [V3 M3], V4 as [V4 M4],
+           V5 as [V5 M5], V6 as [V6 M6], V7 as [V7 M7].
+  set (f := {| f0 := b0; f1 := b1; f2 := b2; f3 := b3; f4 := b4; f5 := c0; f6 := c1; f7 := c2;
+               f8 := c3; f9 := c4; f10 := c5; f11 := c6; f12 := c7 |}).
+  assert (HL: hdr_lens f) by (unfold hdr_lens, f; cbn; repeat split; assumption).
+  assert (Hbs: (b0 ++ b1 ++ b2 ++ b3 ++ b4) ++ post = hdr_cat f recs).
+  { rewrite Hpost. unfold hdr_cat, f. cbn [f0 f1 f2 f3 f4 f5 f6 f7 f8 f9 f10 f11 f12].
+    rewrite <- !app_assoc. reflexivity. }
+  destruct (hdr_cat_parse f recs HL) as (Hlen & Hsk21 & _ & _).
+  assert (Hsk: skipn 21 ((b0 ++ b1 ++ b2 ++ b3 ++ b4) ++ post) = post).
+  { apply skipn_app_exact. rewrite !app_length. lia. }
+  assert (Hz: zlen ((b0 ++ b1 ++ b2 ++ b3 ++ b4) ++ post) = zlen post + 21).
+  { unfold zlen. rewrite !app_length. lia. }
+  exists f, recs. split; [exact HL|]. split; [exact Hbs|]. split; [exact Hrecs|].
+  rewrite Hsk, Hz. apply range_s4 in Hbr.
+  unfold f; cbn [f0 f1 f2 f3 f4 f5 f6 f7 f8 f9 f10 f11 f12].
+  repeat split; try assumption; try lia.
+Qed.
+
+(* 2. the header of a new batch, as the independent parser sees it *)
+Theorem write_new_batch_header : forall nb bs first,
+  hd_error (n_records nb) = Some first ->
+  write_new_batch nb = Ok bs ->
+  exists h, spec_parse_header bs = Some h /\
+    sh_base_offset h = r_offset first /\
+    sh_batch_length h = zlen bs - 12 /\
+    sh_ple h = n_partition_leader_epoch nb /\
+    sh_magic h = 2 /\
+    sh_crc h = crc32c (skipn 21 bs) /\
+    sh_attributes h = n_attributes nb /\
+    sh_lod h = r_offset (last (n_records nb) first) - r_offset first /\
+    sh_base_ts h = millis_of (r_timestamp first) /\
+    sh_max_ts h = millis_of (max_timestamp_us (n_records nb)) /\
+    sh_pid h = n_producer_id nb /\ sh_pepoch h = n_producer_epoch nb /\
+    sh_bseq h = n_base_sequence nb /\ sh_count h = zlen (n_records nb) /\
+    spec_batch_ok bs = true.
+Proof.
+  intros nb bs first Hhd H.
+  destruct (n_records nb) as [|r rest] eqn:Hrs; [discriminate|].
+  cbn [hd_error] in Hhd. assert (r = first) as -> by congruence. clear Hhd. rewrite <- Hrs.
+  destruct (write_new_batch_shape nb bs first rest Hrs H)
+    as (f & recs & HL & Hbs & _ & _ & E0 & E1 & E2 & E3 & E4 & E5 & E6 & E7 & E8 & E9 & E10 & E11 & E12).
+  destruct (hdr_cat_parse f recs HL) as (_ & _ & _ & Hp). rewrite <- Hbs in Hp.
+  eexists. split; [exact Hp|].
+  cbn [sh_base_offset sh_batch_length sh_ple sh_magic sh_crc sh_attributes sh_lod sh_base_ts
+       sh_max_ts sh_pid sh_pepoch sh_bseq sh_count].
+  repeat (split; [assumption|]).
+  unfold spec_batch_ok. rewrite Hp.
+  cbn [sh_batch_length sh_magic sh_crc]. rewrite E1, E3, E4, !Z.eqb_refl. reflexivity.
+Qed.
+Print Assumptions write_new_batch_header.
+
+(* ------------------------------------------------------------------------------------------ *)
+(* the reader, in equational form *)
+Lemma skipn_skipn {A} (x y : nat) (l : list A) : skipn x (skipn y l) = skipn (y + x) l.
+Proof.
+  revert l. induction y as [|y IH]; intros l; [reflexivity|].
+  destruct l as [|a l]; [cbn [skipn Nat.add]; apply skipn_nil|]. cbn [skipn Nat.add]. apply IH.
+Qed.
+
+Lemma slice_skipn (l : list Z) off len k : slice off len (skipn k l) = slice (k + off) len l.
+Proof. unfold slice. rewrite skipn_skipn. reflexivity. Qed.
+
+Lemma slice_firstn (l : list Z) off len m : (off + len <= m)%nat ->
+  slice off len (firstn m l) = slice off len l.
+Proof.
+  intros H. unfold slice. rewrite skipn_firstn_comm, firstn_firstn. f_equal. lia.
+Qed.
+
+Lemma run_read_int w s bs : run (read_int w s) bs =
+  if (length bs <? w)%nat then Err EUnderflow
+  else Ok ((if s then sint w (slice 0 w bs) else be_val (slice 0 w bs)), skipn w bs).
+Proof.
+  unfold read_int. cbn [run]. unfold slice, sint. cbn [skipn]. rewrite Nat2Z.id.
+  destruct (Nat.ltb_spec (length bs) w) as [H|H].
+  - replace ((Z.of_nat w <? 0) || (Z.of_nat (length bs) <? Z.of_nat w)) with true; [reflexivity|].
+    symmetry. apply orb_true_iff. right. apply Z.ltb_lt. lia.
+  - replace ((Z.of_nat w <? 0) || (Z.of_nat (length bs) <? Z.of_nat w)) with false; [reflexivity|].
+    symmetry. apply orb_false_iff. split; apply Z.ltb_ge; lia.
+Qed.
+
+Lemma py_read_prefix n (l : list Z) :
+  exists m, fst (py_read n l) = firstn m l /\ snd (py_read n l) = skipn m l.
+Proof.
+  unfold py_read. destruct (n <? 0).
+  - exists (length l). cbn [fst snd]. rewrite firstn_all, skipn_all. split; reflexivity.
+  - exists (Z.to_nat n). split; reflexivity.
+Qed.
+
+(* one step of a chain of fixed-width reads: either the input is too short (underflow, which
+   closes the goal or contradicts the length hypothesis) or the read succeeds *)
+Ltac rd :=
+  rewrite run_bind, run_read_int, ?skipn_skipn, ?skipn_length;
+  match goal with
+  | |- context [if (?a <? ?b)%nat then Err EUnderflow else _] =>
+      destruct (Nat.ltb_spec a b) as [?|?];
+      [ try reflexivity; try (exfalso; lia) | try (exfalso; lia); cbv beta iota ]
+  end.
+
+Lemma run_outer bs :
+  run (bo <- read_int 8 true ;; bl <- read_int 4 true ;; Ret (bo, bl)) bs =
+  if (length bs <? 12)%nat then Err EUnderflow
+  else Ok ((sint 8 (slice 0 8 bs), sint 4 (slice 8 4 bs)), skipn 12 bs).
+Proof.
+  destruct (Nat.ltb_spec (length bs) 12) as [H|H].
+  - rd. rd.
+  - rd. rd. reflexivity.
+Qed.
+
+Definition inner_hdr (bo bl : Z) (body : list Z) : batch :=
+  {| b_base_offset := bo; b_batch_length := bl;
+     b_partition_leader_epoch := sint 4 (slice 0 4 body); b_crc := be_val (slice 5 4 body);
+     b_attributes := 0; b_last_offset_delta := 0; b_base_timestamp := 0; b_max_timestamp := 0;
+     b_producer_id := 0; b_producer_epoch := 0; b_base_sequence := 0; b_records := [] |}.
+
+Lemma run_inner f bo bl body :
+  run (read_batch_inner f bo bl) body =
+  if (length body <? 5)%nat then Err EUnderflow
+  else if negb (sint 1 (slice 4 1 body) =? 2) then Err EValue
+  else if (length body <? 9)%nat then Err EUnderflow
+  else Ok (inner_hdr bo bl body, skipn 9 body).
+Proof.
+  unfold read_batch_inner.
+  destruct (Nat.ltb_spec (length body) 5) as [H|H].
+  - rd. rd.
+  - rd. rd. rewrite slice_skipn. cbn [Nat.add].
+    destruct (negb (sint 1 (slice 4 1 body) =? 2)); [reflexivity|].
+    destruct (Nat.ltb_spec (length body) 9) as [H2|H2].
+    + rd.
+    + rd. rewrite slice_skipn. reflexivity.
+Qed.
+
+Definition rest_batch (h : batch) (after : list Z) (rs : list record) : batch :=
+  {| b_base_offset := b_base_offset h; b_batch_length := b_batch_length h;
+     b_partition_leader_epoch := b_partition_leader_epoch h; b_crc := b_crc h;
+     b_attributes := sint 2 (slice 0 2 after); b_last_offset_delta := sint 4 (slice 2 4 after);
+     b_base_timestamp := sint 8 (slice 6 8 after); b_max_timestamp := sint 8 (slice 14 8 after);
+     b_producer_id := sint 8 (slice 22 8 after); b_producer_epoch := sint 2 (slice 30 2 after);
+     b_base_sequence := sint 4 (slice 32 4 after); b_records := rs |}.
+
+Lemma run_rest f h after :
+  run (read_batch_rest f h) after =
+  if (length after <? 40)%nat then Err EUnderflow
+  else match run (repeat_prog f (sint 4 (slice 36 4 after))
+                    (read_one_record f (sint 8 (slice 6 8 after)) (b_base_offset h)
+                                     (sint 8 (slice 14 8 after)))) (skipn 40 after) with
+       | Err e => Err e
+       | Ok (rs, r) => Ok (rest_batch h after rs, r)
+       end.
+Proof.
+  unfold read_batch_rest.
+  destruct (Nat.ltb_spec (length after) 40) as [H|H].
+  - rd. rd. rd. rd. rd. rd. rd. rd.
+  - rd. rd. rd. rd. rd. rd. rd. rd.
+    rewrite !slice_skipn. cbn [Nat.add]. rewrite run_bind.
+    destruct (run _ _) as [[rs r]|e]; reflexivity.
+Qed.
+
+Definition bl_of (bs : list Z) : Z := sint 4 (slice 8 4 bs).
+Definition body_of (bs : list Z) : list Z := fst (py_read (bl_of bs) (skipn 12 bs)).
+Definition outer_of (bs : list Z) : list Z := snd (py_read (bl_of bs) (skipn 12 bs)).
+Definition covered_of (bs : list Z) : list Z := fst (py_read (bl_of bs - 9) (skipn 9 (body_of bs))).
+Definition hdr_of (bs : list Z) : batch := inner_hdr (sint 8 (slice 0 8 bs)) (bl_of bs) (body_of bs).
+
+Definition read_batch_staged (bs : list Z) : res (batch * list Z) :=
+  if (length bs <? 12)%nat then Err EUnderflow
+  else if (length (body_of bs) <? 5)%nat then Err EUnderflow
+  else if negb (sint 1 (slice 4 1 (body_of bs)) =? 2) then Err EValue
+  else if (length (body_of bs) <? 9)%nat then Err EUnderflow
+  else if negb (b_crc (hdr_of bs) =? crc32c (covered_of bs)) then Err EValue
+  else match run (read_batch_rest (S (length bs)) (hdr_of bs)) (skipn 9 (body_of bs)) with
+       | Err e => Err e
+       | Ok (b, _) => Ok (b, outer_of bs)
+       end.
+
+Lemma read_batch_staged_eq bs : read_batch bs = read_batch_staged bs.
+Proof.
+  unfold read_batch, read_batch_staged. rewrite run_outer.
+  destruct (length bs <? 12)%nat; [reflexivity|].
+  unfold hdr_of, covered_of, outer_of, body_of. fold (bl_of bs).
+  destruct (py_read (bl_of bs) (skipn 12 bs)) as [body outer]. cbn [fst snd].
+  rewrite run_inner.
+  destruct (length body <? 5)%nat; [reflexivity|].
+  destruct (negb (sint 1 (slice 4 1 body) =? 2)); [reflexivity|].
+  destruct (length body <? 9)%nat; [reflexivity|].
+  destruct (py_read (bl_of bs - 9) (skipn 9 body)) as [covered x]. cbn [fst snd].
+  reflexivity.
+Qed.
+
+(* body-relative positions are positions in the whole input *)
+Lemma body_slice bs off len : (off + len <= length (body_of bs))%nat ->
+  slice off len (body_of bs) = slice (12 + off) len bs.
+Proof.
+  unfold body_of. destruct (py_read_prefix (bl_of bs) (skipn 12 bs)) as (m & Hm & _).
+  rewrite Hm. intros H. rewrite firstn_length in H.
+  rewrite slice_firstn by lia. apply slice_skipn.
+Qed.
+
+Lemma body_length bs : (length (body_of bs) <= length bs - 12)%nat.
+Proof.
+  unfold body_of. destruct (py_read_prefix (bl_of bs) (skipn 12 bs)) as (m & Hm & _).
+  rewrite Hm, firstn_length, skipn_length. lia.
+Qed.
+
+Definition hdr21 (bs : list Z) : batch :=
+  {| b_base_offset := sint 8 (slice 0 8 bs); b_batch_length := sint 4 (slice 8 4 bs);
+     b_partition_leader_epoch := sint 4 (slice 12 4 bs); b_crc := be_val (slice 17 4 bs);
+     b_attributes := 0; b_last_offset_delta := 0; b_base_timestamp := 0; b_max_timestamp := 0;
+     b_producer_id := 0; b_producer_epoch := 0; b_base_sequence := 0; b_records := [] |}.
+
+Lemma hdr_of_hdr21 bs : (9 <= length (body_of bs))%nat -> hdr_of bs = hdr21 bs.
+Proof.
+  intros H. unfold hdr_of, inner_hdr, hdr21, bl_of. rewrite !body_slice by lia. reflexivity.
+Qed.
+
+(* what a successful read_batch tells us *)
+Lemma read_batch_inv bs b rest : read_batch bs = Ok (b, rest) ->
+  (49 <= length (body_of bs))%nat /\ (61 <= length bs)%nat /\
+  sint 1 (slice 16 1 bs) = 2 /\
+  be_val (slice 17 4 bs) = crc32c (covered_of bs) /\
+  rest = outer_of bs /\
+  exists rs r,
+    run (repeat_prog (S (length bs)) (sint 4 (slice 57 4 bs))
+           (read_one_record (S (length bs)) (sint 8 (slice 27 8 bs)) (sint 8 (slice 0 8 bs))
+                            (sint 8 (slice 35 8 bs)))) (skipn 40 (skipn 9 (body_of bs))) = Ok (rs, r) /\
+    run (read_batch_rest (S (length bs)) (hdr21 bs)) (skipn 9 (body_of bs)) = Ok (b, r) /\
+    b = {| b_base_offset := sint 8 (slice 0 8 bs); b_batch_length := sint 4 (slice 8 4 bs);
+           b_partition_leader_epoch := sint 4 (slice 12 4 bs); b_crc := be_val (slice 17 4 bs);
+           b_attributes := sint 2 (slice 21 2 bs); b_last_offset_delta := sint 4 (slice 23 4 bs);
+           b_base_timestamp := sint 8 (slice 27 8 bs); b_max_timestamp := sint 8 (slice 35 8 bs);
+           b_producer_id := sint 8 (slice 43 8 bs); b_producer_epoch := sint 2 (slice 51 2 bs);
+           b_base_sequence := sint 4 (slice 53 4 bs); b_records := rs |}.
+Proof.
+  rewrite read_batch_staged_eq. unfold read_batch_staged. intros H.
+  destruct (Nat.ltb_spec (length bs) 12) as [L0|L0]; [discriminate|].
+  destruct (Nat.ltb_spec (length (body_of bs)) 5) as [L1|L1]; [discriminate|].
+  destruct (negb (sint 1 (slice 4 1 (body_of bs)) =? 2)) eqn:Emagic; [discriminate|].
+  destruct (Nat.ltb_spec (length (body_of bs)) 9) as [L2|L2]; [discriminate|].
+  destruct (negb (b_crc (hdr_of bs) =? crc32c (covered_of bs))) eqn:Ecrc; [discriminate|].
+  destruct (run (read_batch_rest (S (length bs)) (hdr_of bs)) (skipn 9 (body_of bs)))
+    as [[b' r]|e] eqn:Erest; [|discriminate].
+  assert (b' = b) as -> by congruence. assert (rest = outer_of bs) as -> by congruence. clear H.
+  rewrite hdr_of_hdr21 in * by exact L2.
+  pose proof Erest as Erest'. rewrite run_rest in Erest.
+  destruct (Nat.ltb_spec (length (skipn 9 (body_of bs))) 40) as [L3|L3]; [discriminate|].
+  rewrite skipn_length in L3. pose proof (body_length bs) as L4.
+  apply negb_false_iff, Z.eqb_eq in Emagic. apply negb_false_iff, Z.eqb_eq in Ecrc.
+  rewrite body_slice in Emagic by lia. cbn [hdr21 b_crc b_base_offset] in Ecrc, Erest.
+  rewrite !slice_skipn, !body_slice in Erest by lia. cbn [Nat.add] in Erest.
+  destruct (run (repeat_prog _ _ _) _) as [[rs r']|e] eqn:Erep; [|discriminate].
+  assert (r' = r) as -> by congruence.
+  split; [lia|]. split; [lia|]. split; [exact Emagic|]. split; [exact Ecrc|]. split; [reflexivity|].
+  exists rs, r. split; [reflexivity|]. split; [exact Erest'|].
+  assert (Hb: rest_batch (hdr21 bs) (skipn 9 (body_of bs)) rs = b) by congruence.
+  rewrite <- Hb. unfold rest_batch, hdr21.
+  cbn [b_base_offset b_batch_length b_partition_leader_epoch b_crc].
+  rewrite !slice_skipn, !body_slice by lia. reflexivity.
+Qed.
+
+(* 4. reader facts *)
+Theorem read_batch_bad_magic : forall bs b rest,
+  read_batch bs = Ok (b, rest) -> sint 1 (slice 16 1 bs) = 2.
+Proof. intros bs b rest H. apply read_batch_inv in H. tauto. Qed.
+Print Assumptions read_batch_bad_magic.
+
+Theorem read_batch_crc_checked : forall bs b rest, read_batch bs = Ok (b, rest) ->
+  b_batch_length b >= 9 ->
+  b_crc b = crc32c (slice 21 (Z.to_nat (b_batch_length b - 9)) bs).
+Proof.
+  intros bs b rest H Hbl. apply read_batch_inv in H.
+  destruct H as (_ & _ & _ & Hcrc & _ & rs & r & _ & _ & ->).
+  cbn [b_batch_length b_crc] in *. rewrite Hcrc. f_equal.
+  unfold covered_of, body_of, bl_of, py_read.
+  set (bl := sint 4 (slice 8 4 bs)) in *.
+  destruct (Z.ltb_spec (bl - 9) 0) as [|_]; [lia|].
+  destruct (Z.ltb_spec bl 0) as [|_]; [lia|]. cbn [fst].
+  change (firstn (Z.to_nat (bl - 9)) (skipn 9 (firstn (Z.to_nat bl) (skipn 12 bs))))
+    with (slice 9 (Z.to_nat (bl - 9)) (firstn (Z.to_nat bl) (skipn 12 bs))).
+  rewrite slice_firstn by lia. apply slice_skipn.
+Qed.
+Print Assumptions read_batch_crc_checked.
+
+Lemma repeat_prog_length {A} (p : prog A) : forall f n bs l r,
+  run (repeat_prog f n p) bs = Ok (l, r) -> zlen l = Z.max 0 n.
+Proof.
+  induction f as [|f IH]; intros n bs l r H; cbn [repeat_prog] in H.
+  - destruct (Z.leb_spec n 0); [|discriminate]. cbn [run] in H.
+    assert (l = []) as -> by congruence. unfold zlen. cbn. lia.
+  - destruct (Z.leb_spec n 0).
+    + cbn [run] in H. assert (l = []) as -> by congruence. unfold zlen. cbn. lia.
+    + rewrite run_bind in H. destruct (run p bs) as [[x r1]|e]; [|discriminate].
+      rewrite run_bind in H.
+      destruct (run (repeat_prog f (n - 1) p) r1) as [[xs r2]|e] eqn:E; [|discriminate].
+      cbn [run] in H. assert (l = x :: xs) as -> by congruence.
+      apply IH in E. unfold zlen in *. cbn [length]. lia.
+Qed.
+
+Theorem read_batch_fields : forall bs b rest, read_batch bs = Ok (b, rest) ->
+  exists h, spec_parse_header bs = Some h /\ b_base_offset b = sh_base_offset h /\ b_batch_length b = sh_batch_length h
+    /\ b_partition_leader_epoch b = sh_ple h /\ b_crc b = sh_crc h /\ b_attributes b = sh_attributes h
+    /\ b_last_offset_delta b = sh_lod h /\ b_base_timestamp b = sh_base_ts h /\ b_max_timestamp b = sh_max_ts h
+    /\ b_producer_id b = sh_pid h /\ b_producer_epoch b = sh_pepoch h /\ b_base_sequence b = sh_bseq h
+    /\ zlen (b_records b) = Z.max 0 (sh_count h).
+Proof.
+  intros bs b rest H. apply read_batch_inv in H.
+  destruct H as (_ & L & _ & _ & _ & rs & r & Hrep & _ & ->).
+  unfold spec_parse_header.
+  replace (length bs <? 61)%nat with false by (symmetry; apply Nat.ltb_ge; lia).
+  eexists. split; [reflexivity|].
+  cbn [b_base_offset b_batch_length b_partition_leader_epoch b_crc b_attributes b_last_offset_delta
+       b_base_timestamp b_max_timestamp b_producer_id b_producer_epoch b_base_sequence b_records
+       sh_base_offset sh_batch_length sh_ple sh_magic sh_crc sh_attributes sh_lod sh_base_ts
+       sh_max_ts sh_pid sh_pepoch sh_bseq sh_count].
+  repeat (split; [reflexivity|]).
+  eapply repeat_prog_length. exact Hrep.
+Qed.
+Print Assumptions read_batch_fields.
+
+(* ------------------------------------------------------------------------------------------ *)
+(* 3. the records of a new batch, through the independent decoder *)
+Definition to_spec (base_ts base_off : Z) (r : record) : spec_record :=
+  {| sr_attributes := r_attributes r; sr_ts_delta := millis_of (r_timestamp r) - base_ts;
+     sr_offset_delta := r_offset r - base_off; sr_key := r_key r; sr_value := r_value r;
+     sr_headers := r_headers r |}.
+Definition blob_ok (o : option (list Z)) : bool :=
+  match o with None => true | Some b => zlen b <? 2^31 end.
+Definition record_ok (base_ts base_off : Z) (r : record) : bool :=
+  in_int_range 1 true (r_attributes r)
+  && in_int_range 8 true (millis_of (r_timestamp r) - base_ts)
+  && in_int_range 4 true (r_offset r - base_off)
+  && blob_ok (r_key r) && blob_ok (r_value r) && (zlen (r_headers r) <? 2^31)
+  && forallb (fun h => blob_ok (h_key h) && blob_ok (h_value h)) (r_headers r).
+
+Lemma cat_map_cons_inv {A} (enc : A -> res (list Z)) a l eb :
+  cat (map enc (a :: l)) = Ok eb ->
+  exists e eb', enc a = Ok e /\ cat (map enc l) = Ok eb' /\ eb = e ++ eb'.
+Proof. cbn [map]. apply cat_cons_inv. Qed.
+
+Lemma cat_map_length {A} (enc : A -> res (list Z)) :
+  (forall a e, enc a = Ok e -> (1 <= length e)%nat) ->
+  forall l eb, cat (map enc l) = Ok eb -> (length l <= length eb)%nat.
+Proof.
+  intros Hne. induction l as [|a l IH]; intros eb H; [cbn; lia|].
+  apply cat_map_cons_inv in H. destruct H as (e & eb' & He & Hl & ->).
+  apply Hne in He. apply IH in Hl. rewrite app_length. cbn [length]. lia.
+Qed.
+
+Lemma cat_map_In_length {A} (enc : A -> res (list Z)) : forall l eb a e,
+  cat (map enc l) = Ok eb -> In a l -> enc a = Ok e -> (length e <= length eb)%nat.
+Proof.
+  induction l as [|x l IH]; intros eb a e H Hin He; [destruct Hin|].
+  apply cat_map_cons_inv in H. destruct H as (e0 & eb' & He0 & Hl & ->).
+  rewrite app_length. destruct Hin as [->|Hin].
+  - assert (e0 = e) as -> by congruence. lia.
+  - specialize (IH _ _ _ Hl Hin He). lia.
+Qed.
+
+(* decoding a concatenation of encodings, one item per iteration *)
+Lemma repeat_prog_encodings {A B} (enc : A -> res (list Z)) (dec : prog B) (g : A -> B)
+      (P : A -> Prop) :
+  (forall a e tl, P a -> enc a = Ok e -> run dec (e ++ tl) = Ok (g a, tl)) ->
+  forall l F eb tl, (forall a, In a l -> P a) -> cat (map enc l) = Ok eb -> (length l <= F)%nat ->
+    run (repeat_prog F (zlen l) dec) (eb ++ tl) = Ok (map g l, tl).
+Proof.
+  intros Hdec. induction l as [|a l IH]; intros F eb tl HP H HF.
+  - apply cat_nil_inv in H. subst eb. destruct F; reflexivity.
+  - destruct F as [|F]; [cbn [length] in HF; lia|].
+    apply cat_map_cons_inv in H. destruct H as (e & eb' & He & Hl & ->).
+    cbn [repeat_prog].
+    destruct (Z.leb_spec (zlen (a :: l)) 0) as [Hz|Hz]; [unfold zlen in Hz; cbn [length] in Hz; lia|].
+    rewrite run_bind, <- app_assoc, (Hdec a e _ (HP a (or_introl eq_refl)) He).
+    rewrite run_bind.
+    replace (zlen (a :: l) - 1) with (zlen l) by (unfold zlen; cbn [length]; lia).
+    rewrite (IH F eb' tl); [reflexivity| |exact Hl|cbn [length] in HF; lia].
+    intros x Hx. apply HP. right. exact Hx.
+Qed.
+
+Lemma write_svarint_nonempty v e : write_svarint v = Ok e -> (1 <= length e)%nat.
+Proof.
+  unfold write_svarint, write_varint. destruct (zigzag32 v <? 0); [discriminate|].
+  intros H. assert (e = uvarint_bytes (zigzag32 v)) as -> by (unfold uvarint_bytes; congruence).
+  apply uvarint_bytes_nonempty.
+Qed.
+
+Lemma write_scbytes_nonempty v e : write_scbytes v = Ok e -> (1 <= length e)%nat.
+Proof.
+  unfold write_scbytes. destruct v as [b|].
+  - intros H. apply cat2_inv in H. destruct H as (x & y & Hx & _ & ->).
+    apply write_svarint_nonempty in Hx. rewrite app_length. lia.
+  - apply write_svarint_nonempty.
+Qed.
+
+Lemma write_header_nonempty h e : write_header h = Ok e -> (1 <= length e)%nat.
+Proof.
+  unfold write_header. intros H. apply cat2_inv in H. destruct H as (x & y & Hx & _ & ->).
+  apply write_scbytes_nonempty in Hx. rewrite app_length. lia.
+Qed.
+
+Lemma read_write_scbytes v e tl : blob_ok v = true -> write_scbytes v = Ok e ->
+  run read_scbytes (e ++ tl) = Ok (v, tl).
+Proof.
+  unfold write_scbytes, read_scbytes, blob_ok. destruct v as [b|]; intros Hok H.
+  - apply cat2_inv in H. destruct H as (x & y & Hx & Hy & ->). assert (y = b) as -> by congruence.
+    apply Z.ltb_lt in Hok. assert (0 <= zlen b) by (unfold zlen; lia).
+    rewrite run_bind, <- app_assoc, (read_write_svarint (zlen b) x) by (try assumption; lia).
+    destruct (Z.eqb_spec (zlen b) (-1)); [lia|]. destruct (Z.ltb_spec (zlen b) 0); [lia|].
+    rewrite run_read_app by reflexivity. reflexivity.
+  - rewrite run_bind, (read_write_svarint (-1) e) by (try assumption; lia). reflexivity.
+Qed.
+
+Lemma read_write_header h e tl : blob_ok (h_key h) && blob_ok (h_value h) = true ->
+  write_header h = Ok e -> run read_header (e ++ tl) = Ok (h, tl).
+Proof.
+  unfold write_header, read_header. intros Hok H. apply andb_true_iff in Hok. destruct Hok as [Hk Hv].
+  apply cat2_inv in H. destruct H as (x & y & Hx & Hy & ->).
+  rewrite run_bind, <- app_assoc, (read_write_scbytes _ x _ Hk Hx).
+  rewrite run_bind, (read_write_scbytes _ y _ Hv Hy). destruct h; reflexivity.
+Qed.
+
+Lemma write_record_nonempty r bts boff e : write_record r bts boff = Ok e -> (1 <= length e)%nat.
+Proof.
+  unfold write_record. intros H. apply rbind_inv in H. destruct H as (body & _ & H).
+  apply cat2_inv in H. destruct H as (x & y & Hx & _ & ->).
+  apply write_svarint_nonempty in Hx. rewrite app_length. lia.
+Qed.
+
+Lemma read_write_record F bts boff r e tl :
+  record_ok bts boff r = true -> write_record r bts boff = Ok e ->
+  zlen e < 2 ^ 31 -> (length e <= F)%nat ->
+  run (spec_record_prog F) (e ++ tl) = Ok (to_spec bts boff r, tl).
+Proof.
+  intros Hok H Hsz HF. unfold record_ok in Hok.
+  apply andb_true_iff in Hok. destruct Hok as [Hok Hhs].
+  apply andb_true_iff in Hok. destruct Hok as [Hok Hnh].
+  apply andb_true_iff in Hok. destruct Hok as [Hok Hval].
+  apply andb_true_iff in Hok. destruct Hok as [Hok Hkey].
+  apply andb_true_iff in Hok. destruct Hok as [Hok Hod].
+  apply andb_true_iff in Hok. destruct Hok as [_ Htd].
+  apply range_s8 in Htd. apply range_s4 in Hod. apply Z.ltb_lt in Hnh.
+  unfold write_record in H. apply rbind_inv in H. destruct H as (body & Hbody & H).
+  apply cat2_inv in H. destruct H as (lenb & y & Hlen & Hy & ->). assert (y = body) as -> by congruence.
+  clear Hy.
+  apply cat_cons_inv in Hbody. destruct Hbody as (a0 & t0 & H0 & Hbody & ->).
+  apply cat_cons_inv in Hbody. destruct Hbody as (a1 & t1 & H1 & Hbody & ->).
+  apply cat_cons_inv in Hbody. destruct Hbody as (a2 & t2 & H2 & Hbody & ->).
+  apply cat_cons_inv in Hbody. destruct Hbody as (a3 & t3 & H3 & Hbody & ->).
+  apply cat_cons_inv in Hbody. destruct Hbody as (a4 & t4 & H4 & Hbody & ->).
+  apply cat_cons_inv in Hbody. destruct Hbody as (a5 & t5 & H5 & Hbody & ->).
+  apply cat_cons_inv in Hbody. destruct Hbody as (hb & t6 & H6 & Hbody & ->).
+  apply cat_nil_inv in Hbody. subst t6.
+  set (body := a0 ++ a1 ++ a2 ++ a3 ++ a4 ++ a5 ++ hb ++ []) in *.
+  assert (Hbl: (length body <= length (lenb ++ body))%nat) by (rewrite app_length; lia).
+  assert (Hhl: (length (r_headers r) <= length hb)%nat).
+  { eapply cat_map_length; [|exact H6]. apply write_header_nonempty. }
+  assert (Hhb: (length hb <= length body)%nat).
+  { unfold body. rewrite !app_length. lia. }
+  assert (Hrun: run (spec_record_body F) body = Ok (to_spec bts boff r, [])).
+  { unfold spec_record_body, body.
+    rewrite run_bind, (read_write_int 1 true (r_attributes r) a0) by (try assumption; lia). cbv beta iota.
+    rewrite run_bind, (read_write_svarlong (millis_of (r_timestamp r) - bts) a1) by (try assumption; lia). cbv beta iota.
+    rewrite run_bind, (read_write_svarint (r_offset r - boff) a2) by (try assumption; lia). cbv beta iota.
+    rewrite run_bind, (read_write_scbytes (r_key r) a3) by assumption. cbv beta iota.
+    rewrite run_bind, (read_write_scbytes (r_value r) a4) by assumption. cbv beta iota.
+    assert (0 <= zlen (r_headers r)) by (unfold zlen; lia).
+    rewrite run_bind, (read_write_svarint (zlen (r_headers r)) a5) by (try assumption; lia). cbv beta iota.
+    rewrite run_bind.
+    rewrite (repeat_prog_encodings write_header read_header (fun h => h)
+               (fun h => blob_ok (h_key h) && blob_ok (h_value h) = true)).
+    - rewrite map_id. reflexivity.
+    - intros a e tl' Ha He. apply read_write_header; assumption.
+    - intros a Ha. rewrite forallb_forall in Hhs. apply Hhs. exact Ha.
+    - exact H6.
+    - lia. }
+  unfold spec_record_prog.
+  assert (0 <= zlen body <= zlen (lenb ++ body)) by (unfold zlen; lia).
+  rewrite run_bind, <- app_assoc, (read_write_svarint (zlen body) lenb) by (try assumption; lia).
+  rewrite run_read_app by reflexivity. rewrite Hrun. reflexivity.
+Qed.
+
+Theorem write_new_batch_decodes : forall nb bs first,
+  hd_error (n_records nb) = Some first ->
+  forallb (record_ok (millis_of (r_timestamp first)) (r_offset first)) (n_records nb) = true ->
+  write_new_batch nb = Ok bs ->
+  exists h, spec_decode bs =
+            Ok (h, map (to_spec (millis_of (r_timestamp first)) (r_offset first)) (n_records nb)).
+Proof.
+  intros nb bs first Hhd Hok H.
+  destruct (write_new_batch_header nb bs first Hhd H) as (h & Hp & Hfields).
+  assert (Hcount: sh_count h = zlen (n_records nb)) by tauto.
+  assert (Hbok: spec_batch_ok bs = true) by tauto. clear Hfields.
+  destruct (n_records nb) as [|r rest] eqn:Hrs; [discriminate|].
+  cbn [hd_error] in Hhd. assert (r = first) as -> by congruence. clear Hhd. rewrite <- Hrs in *.
+  destruct (write_new_batch_shape nb bs first rest Hrs H) as (f & recs & HL & Hbs & Hrecs & Hsz & _).
+  destruct (hdr_cat_parse f recs HL) as (Hlen & _ & Hsk & _). rewrite <- Hbs in Hlen, Hsk.
+  exists h. unfold spec_decode. rewrite Hp, Hbok, Hcount. cbn [negb].
+  replace (skipn 61 bs) with (recs ++ []) by (rewrite app_nil_r; symmetry; exact Hsk).
+  set (bts := millis_of (r_timestamp first)) in *. set (boff := r_offset first) in *.
+  rewrite (repeat_prog_encodings (fun r => write_record r bts boff)
+             (spec_record_prog (S (length bs))) (to_spec bts boff)
+             (fun r => record_ok bts boff r = true /\
+                       forall e, write_record r bts boff = Ok e -> (length e <= length recs)%nat)).
+  - reflexivity.
+  - intros a e tl [Ha Hle] He. specialize (Hle e He).
+    apply read_write_record; try assumption; unfold zlen in *; lia.
+  - intros a Ha. split.
+    + rewrite forallb_forall in Hok. apply Hok. exact Ha.
+    + intros e He. eapply cat_map_In_length; eassumption.
+  - exact Hrecs.
+  - pose proof (cat_map_length _ (fun a e => write_record_nonempty a bts boff e) _ _ Hrecs). lia.
+Qed.
+Print Assumptions write_new_batch_decodes.
+
+(* ------------------------------------------------------------------------------------------ *)
+(* 5. truncation.  The reader's loops are bounded by a fuel computed from the length of its
+   input, so a truncated input is read with less fuel: success is monotone in the fuel. *)
+Definition ok_le {A} (p p' : prog A) : Prop := forall x r, run p x = Ok r -> run p' x = Ok r.
+
+Lemma ok_le_refl {A} (p : prog A) : ok_le p p.
+Proof. intros x r H. exact H. Qed.
+
+Lemma ok_le_bind {A B} (p p' : prog A) (f f' : A -> prog B) :
+  ok_le p p' -> (forall a, ok_le (f a) (f' a)) -> ok_le (bind p f) (bind p' f').
+Proof.
+  intros Hp Hf x r H. rewrite run_bind in *.
+  destruct (run p x) as [[a r1]|e] eqn:E; [|discriminate].
+  rewrite (Hp _ _ E). apply Hf. exact H.
+Qed.
+
+Lemma ok_le_read {A} n (k k' : list Z -> prog A) :
+  (forall b, ok_le (k b) (k' b)) -> ok_le (Read n k) (Read n k').
+Proof.
+  intros Hk x r H. cbn [run] in *.
+  destruct ((n <? 0) || (Z.of_nat (length x) <? n)); [discriminate|]. apply Hk. exact H.
+Qed.
+
+Lemma ok_le_repeat {A} (p p' : prog A) : ok_le p p' ->
+  forall f f' n, (f <= f')%nat -> ok_le (repeat_prog f n p) (repeat_prog f' n p').
+Proof.
+  intros Hp. induction f as [|f IH]; intros f' n Hle x r H; cbn [repeat_prog] in H.
+  - destruct (n <=? 0) eqn:E; [|discriminate].
+    destruct f'; cbn [repeat_prog]; rewrite E; exact H.
+  - destruct f' as [|f']; [lia|]. cbn [repeat_prog]. destruct (n <=? 0); [exact H|].
+    revert x r H. apply ok_le_bind; [exact Hp|]. intros a.
+    apply ok_le_bind; [apply IH; lia|]. intros xs. apply ok_le_refl.
+Qed.
+
+Lemma read_record_body_mono f f' bt bo : (f <= f')%nat ->
+  ok_le (read_record_body f bt bo) (read_record_body f' bt bo).
+Proof.
+  intros Hle. unfold read_record_body.
+  repeat (apply ok_le_bind; [apply ok_le_refl|intros ?]).
+  apply ok_le_bind; [apply ok_le_repeat; [apply ok_le_refl|exact Hle]|].
+  intros hs. apply ok_le_refl.
+Qed.
+
+Lemma read_record_mono f f' bt bo : (f <= f')%nat ->
+  ok_le (read_record f bt bo) (read_record f' bt bo).
+Proof.
+  intros Hle. unfold read_record.
+  apply ok_le_bind; [apply ok_le_refl|]. intros len. apply ok_le_read. intros body x r H.
+  destruct (run (read_record_body f bt bo) body) as [[rec [|z zs]]|e] eqn:E;
+    cbn [run] in H; try discriminate.
+  rewrite (read_record_body_mono f f' bt bo Hle _ _ E). exact H.
+Qed.
+
+Lemma read_one_record_mono f f' bt bo mt : (f <= f')%nat ->
+  ok_le (read_one_record f bt bo mt) (read_one_record f' bt bo mt).
+Proof.
+  intros Hle. unfold read_one_record.
+  apply ok_le_bind; [apply read_record_mono; exact Hle|]. intros r. apply ok_le_refl.
+Qed.
+
+Lemma read_batch_rest_mono f f' h : (f <= f')%nat ->
+  ok_le (read_batch_rest f h) (read_batch_rest f' h).
+Proof.
+  intros Hle. unfold read_batch_rest.
+  repeat (apply ok_le_bind; [apply ok_le_refl|intros ?]).
+  apply ok_le_bind; [apply ok_le_repeat; [apply read_one_record_mono; exact Hle|exact Hle]|].
+  intros rs. apply ok_le_refl.
+Qed.
+
+(* the declared length is the actual length of what follows the length field *)
+Definition sh_batch_length_matches (bs : list Z) : Prop := sint 4 (slice 8 4 bs) = zlen bs - 12.
+(* the part after the CRC (attributes .. last record) is consumed exactly, with the header fields
+   (offset, length, epoch, crc) as read from the first 21 bytes *)
+Definition records_fill_body (bs : list Z) : Prop :=
+  exists b, run (read_batch_rest (S (length bs)) (hdr21 bs)) (skipn 21 bs) = Ok (b, []).
+
+Lemma body_of_all (bs : list Z) : (12 <= length bs)%nat ->
+  forall bs', sint 4 (slice 8 4 bs') = zlen bs - 12 -> (length bs' <= length bs)%nat ->
+  body_of bs' = skipn 12 bs' /\ outer_of bs' = [].
+Proof.
+  intros H bs' Hbl Hle. unfold body_of, outer_of, bl_of, py_read. rewrite Hbl.
+  destruct (Z.ltb_spec (zlen bs - 12) 0) as [Hn|_]; [unfold zlen in Hn; lia|]. cbn [fst snd].
+  assert (Hl: (length (skipn 12 bs') <= Z.to_nat (zlen bs - 12))%nat).
+  { rewrite skipn_length. unfold zlen. lia. }
+  split; [apply firstn_all2; exact Hl|apply skipn_all2; exact Hl].
+Qed.
+
+Theorem read_batch_truncated : forall bs b, read_batch bs = Ok (b, []) ->
+  sh_batch_length_matches bs ->
+  records_fill_body bs ->
+  forall k, (k < length bs)%nat -> exists e, read_batch (firstn k bs) = Err e.
+Proof.
+  intros bs b Hread Hlen [b0 Hfill] k Hk. unfold sh_batch_length_matches in Hlen.
+  apply read_batch_inv in Hread. destruct Hread as (_ & L61 & _).
+  rewrite read_batch_staged_eq. unfold read_batch_staged.
+  assert (Lk: length (firstn k bs) = k) by (rewrite firstn_length; lia).
+  set (bs' := firstn k bs) in *.
+  destruct (Nat.ltb_spec (length bs') 12) as [L0|L0]; [eexists; reflexivity|].
+  assert (Hbl': sint 4 (slice 8 4 bs') = zlen bs - 12).
+  { unfold bs'. rewrite slice_firstn by lia. exact Hlen. }
+  destruct (body_of_all bs ltac:(lia) bs' Hbl' ltac:(lia)) as [Hbody _]. rewrite Hbody.
+  destruct (length (skipn 12 bs') <? 5)%nat; [eexists; reflexivity|].
+  destruct (negb (sint 1 (slice 4 1 (skipn 12 bs')) =? 2)); [eexists; reflexivity|].
+  destruct (Nat.ltb_spec (length (skipn 12 bs')) 9) as [L1|L1]; [eexists; reflexivity|].
+  destruct (negb (b_crc (hdr_of bs') =? crc32c (covered_of bs'))); [eexists; reflexivity|].
+  rewrite skipn_length in L1.
+  rewrite hdr_of_hdr21 by (rewrite Hbody, skipn_length; lia).
+  assert (Hh: hdr21 bs' = hdr21 bs).
+  { unfold hdr21, bs'. rewrite !slice_firstn by lia. reflexivity. }
+  rewrite Hh, skipn_skipn. cbn [Nat.add]. unfold bs' at 2. rewrite skipn_firstn_comm.
+  destruct (run (read_batch_rest (S (length bs')) (hdr21 bs)) (firstn (k - 21) (skipn 21 bs)))
+    as [[b' r]|e] eqn:E; [exfalso|eexists; reflexivity].
+  apply (read_batch_rest_mono (S (length bs')) (S (length bs))) in E; [|lia].
+  rewrite <- (app_nil_r (skipn 21 bs)) in Hfill at 1.
+  rewrite (run_prefix_underflow _ _ _ _ Hfill) in E; [discriminate|].
+  rewrite skipn_length. lia.
+Qed.
+Print Assumptions read_batch_truncated.
+
+(* ------------------------------------------------------------------------------------------ *)
+(* 6. single-bit damage after the magic byte is detected by the CRC comparison *)
+From KioV Require Import Records.CrcProofs.
+
+Lemma flip_bit_shape i (m : list Z) : (i / 8 < length m)%nat ->
+  exists p b tl, length p = (i / 8)%nat /\ m = p ++ b :: tl /\
+                 flip_bit i m = p ++ Z.lxor b (2 ^ Z.of_nat (i mod 8)) :: tl.
+Proof.
+  intros H. unfold flip_bit. destruct (skipn (i / 8) m) as [|b tl] eqn:E.
+  - exfalso. assert (L: length (skipn (i / 8) m) = (length m - i / 8)%nat) by apply skipn_length.
+    rewrite E in L. cbn [length] in L. lia.
+  - exists (firstn (i / 8) m), b, tl. split; [rewrite firstn_length; lia|]. split; [|reflexivity].
+    rewrite <- E. symmetry. apply firstn_skipn.
+Qed.
+
+Lemma flip_bit_length i (m : list Z) : (i / 8 < length m)%nat -> length (flip_bit i m) = length m.
+Proof.
+  intros H. destruct (flip_bit_shape i m H) as (p & b & tl & Hp & Hm & Hf).
+  rewrite Hf, Hm, !app_length. reflexivity.
+Qed.
+
+Lemma flip_bit_firstn i (m : list Z) n : (i / 8 < length m)%nat -> (n <= i / 8)%nat ->
+  firstn n (flip_bit i m) = firstn n m.
+Proof.
+  intros H Hn. destruct (flip_bit_shape i m H) as (p & b & tl & Hp & Hm & Hf).
+  rewrite Hf, Hm, !firstn_app.
+  replace (n - length p)%nat with 0%nat by lia. reflexivity.
+Qed.
+
+Lemma flip_bit_skipn_after i (m : list Z) n : (i / 8 < length m)%nat -> (i / 8 < n)%nat ->
+  skipn n (flip_bit i m) = skipn n m.
+Proof.
+  intros H Hn. destruct (flip_bit_shape i m H) as (p & b & tl & Hp & Hm & Hf).
+  rewrite Hf, Hm, !skipn_app.
+  replace (n - length p)%nat with (S (n - i / 8 - 1)) by lia. reflexivity.
+Qed.
+
+Lemma flip_bit_skipn_before i (m : list Z) n : (8 * n <= i)%nat ->
+  skipn n (flip_bit i m) = flip_bit (i - 8 * n) (skipn n m).
+Proof.
+  intros Hn.
+  assert (Hd: ((i - 8 * n) / 8 = i / 8 - n)%nat).
+  { symmetry. apply Nat.div_unique with (i mod 8)%nat; [apply Nat.mod_upper_bound; lia|].
+    pose proof (Nat.div_mod i 8 ltac:(lia)).
+    assert (n <= i / 8)%nat by (apply Nat.div_le_lower_bound; lia). lia. }
+  assert (Hmod: ((i - 8 * n) mod 8 = i mod 8)%nat).
+  { symmetry. apply Nat.mod_unique with (i / 8 - n)%nat; [apply Nat.mod_upper_bound; lia|].
+    pose proof (Nat.div_mod i 8 ltac:(lia)).
+    assert (n <= i / 8)%nat by (apply Nat.div_le_lower_bound; lia). lia. }
+  assert (Hle: (n <= i / 8)%nat) by (apply Nat.div_le_lower_bound; lia).
+  unfold flip_bit. rewrite Hd, Hmod, skipn_skipn.
+  replace (n + (i / 8 - n))%nat with (i / 8)%nat by lia.
+  rewrite skipn_app, skipn_firstn_comm, firstn_length.
+  destruct (Nat.le_gt_cases (i / 8) (length m)) as [Hc|Hc].
+  - replace (n - Nat.min (i / 8) (length m))%nat with 0%nat by lia. reflexivity.
+  - rewrite (skipn_all2 m (n := i / 8)) by lia. rewrite skipn_nil, !app_nil_r. reflexivity.
+Qed.
+
+Lemma flip_bit_bytes_ok i (m : list Z) : (i / 8 < length m)%nat -> bytes_ok m = true ->
+  bytes_ok (flip_bit i m) = true.
+Proof.
+  intros H Hok. destruct (flip_bit_shape i m H) as (p & b & tl & _ & Hm & Hf).
+  rewrite Hf. rewrite Hm in Hok. rewrite bytes_ok_app in *.
+  apply andb_true_iff in Hok. destruct Hok as [H1 H2]. rewrite H1.
+  cbn [bytes_ok forallb andb] in *. apply andb_true_iff in H2. destruct H2 as [Hb Htl].
+  fold (bytes_ok tl) in *. rewrite Htl, andb_true_r.
+  apply byte_ok_range in Hb.
+  assert (Hj: (i mod 8 < 8)%nat) by (apply Nat.mod_upper_bound; lia).
+  assert (Hp: 0 <= 2 ^ Z.of_nat (i mod 8) < 2 ^ 8).
+  { split; [apply Z.pow_nonneg; lia|apply Z.pow_lt_mono_r; lia]. }
+  assert (Hx: 0 <= Z.lxor b (2 ^ Z.of_nat (i mod 8)) < 2 ^ 8) by (apply lxor_range; lia).
+  unfold byte_ok. apply andb_true_iff. split; [apply Z.leb_le|apply Z.ltb_lt]; lia.
+Qed.
+
+Lemma flip_bit_neq i (m : list Z) : bytes_ok m = true -> (i < 8 * length m)%nat -> flip_bit i m <> m.
+Proof.
+  intros Hok Hi E. apply (crc32c_single_bit m i Hok Hi). rewrite E. reflexivity.
+Qed.
+
+Lemma be_val_inj (l1 l2 : list Z) : bytes_ok l1 = true -> bytes_ok l2 = true ->
+  length l1 = length l2 -> be_val l1 = be_val l2 -> l1 = l2.
+Proof.
+  intros H1 H2 HL HV. rewrite <- (be_bytes_be_val l1 H1), <- (be_bytes_be_val l2 H2), HL, HV.
+  reflexivity.
+Qed.
+
+Lemma split_17_4 (l : list Z) : l = firstn 17 l ++ slice 17 4 l ++ skipn 21 l.
+Proof.
+  unfold slice. rewrite <- (firstn_skipn 17 l) at 1. f_equal.
+  rewrite <- (firstn_skipn 4 (skipn 17 l)) at 1. rewrite skipn_skipn. reflexivity.
+Qed.
+
+Lemma bytes_ok_slice off len (l : list Z) : bytes_ok l = true -> bytes_ok (slice off len l) = true.
+Proof.
+  intros H. unfold slice.
+  rewrite <- (firstn_skipn off l), bytes_ok_app in H. apply andb_true_iff in H. destruct H as [_ H].
+  rewrite <- (firstn_skipn len (skipn off l)), bytes_ok_app in H. apply andb_true_iff in H. tauto.
+Qed.
+
+Lemma covered_of_all (bs : list Z) : (21 <= length bs)%nat ->
+  forall bs', sint 4 (slice 8 4 bs') = zlen bs - 12 -> (length bs' <= length bs)%nat ->
+  covered_of bs' = skipn 21 bs'.
+Proof.
+  intros H bs' Hbl Hle. unfold covered_of.
+  destruct (body_of_all bs ltac:(lia) bs' Hbl Hle) as [-> _].
+  unfold bl_of, py_read. rewrite Hbl, skipn_skipn. cbn [Nat.add].
+  destruct (Z.ltb_spec (zlen bs - 12 - 9) 0) as [Hn|_]; [unfold zlen in Hn; lia|]. cbn [fst].
+  apply firstn_all2. rewrite skipn_length. unfold zlen. lia.
+Qed.
+
+Theorem read_batch_bit_flip : forall bs b, read_batch bs = Ok (b, []) ->
+  bytes_ok bs = true -> sint 4 (slice 8 4 bs) = zlen bs - 12 ->
+  forall i, (8 * 17 <= i < 8 * length bs)%nat -> exists e, read_batch (flip_bit i bs) = Err e.
+Proof.
+  intros bs b Hread Hok Hlen i [Hi1 Hi2].
+  assert (K1: (17 <= i / 8)%nat) by (apply Nat.div_le_lower_bound; lia).
+  assert (K2: (i / 8 < length bs)%nat) by (apply Nat.div_lt_upper_bound; lia).
+  apply read_batch_inv in Hread. destruct Hread as (_ & L61 & _ & Hcrc & _).
+  rewrite (covered_of_all bs ltac:(lia) bs Hlen ltac:(lia)) in Hcrc.
+  pose proof (flip_bit_length i bs K2) as Lf.
+  pose proof (flip_bit_bytes_ok i bs K2 Hok) as Hok'.
+  assert (F17: firstn 17 (flip_bit i bs) = firstn 17 bs) by (apply flip_bit_firstn; lia).
+  set (bs' := flip_bit i bs) in *.
+  assert (Hbl': sint 4 (slice 8 4 bs') = zlen bs - 12).
+  { rewrite <- Hlen. rewrite <- (slice_firstn bs' 8 4 17), <- (slice_firstn bs 8 4 17) by lia.
+    rewrite F17. reflexivity. }
+  (* the CRC comparison fails *)
+  assert (Hne: be_val (slice 17 4 bs') <> crc32c (skipn 21 bs')).
+  { destruct (Nat.lt_ge_cases (i / 8) 21) as [Hc|Hc].
+    - unfold bs' at 2. rewrite flip_bit_skipn_after by lia. rewrite <- Hcrc. intros Heq.
+      apply be_val_inj in Heq; try (apply bytes_ok_slice; assumption).
+      2:{ unfold slice. rewrite !firstn_length, !skipn_length. lia. }
+      apply (flip_bit_neq i bs Hok Hi2). fold bs'.
+      rewrite (split_17_4 bs'), (split_17_4 bs), F17, Heq. unfold bs'.
+      rewrite flip_bit_skipn_after by lia. reflexivity.
+    - assert (F21: firstn 21 bs' = firstn 21 bs) by (apply flip_bit_firstn; lia).
+      assert (H168: (8 * 21 <= i)%nat) by (pose proof (Nat.div_mod i 8 ltac:(lia)); lia).
+      rewrite <- (slice_firstn bs' 17 4 21) by lia. rewrite F21, slice_firstn by lia.
+      rewrite Hcrc. unfold bs'. rewrite flip_bit_skipn_before by lia.
+      apply not_eq_sym. apply crc32c_single_bit.
+      + unfold bytes_ok in *. rewrite forallb_forall in *. intros x Hx. apply Hok.
+        rewrite <- (firstn_skipn 21 bs). apply in_or_app. right. exact Hx.
+      + rewrite skipn_length. lia. }
+  rewrite read_batch_staged_eq. unfold read_batch_staged.
+  destruct (length bs' <? 12)%nat; [eexists; reflexivity|].
+  destruct (length (body_of bs') <? 5)%nat; [eexists; reflexivity|].
+  destruct (negb (sint 1 (slice 4 1 (body_of bs')) =? 2)); [eexists; reflexivity|].
+  destruct (Nat.ltb_spec (length (body_of bs')) 9) as [L1|L1]; [eexists; reflexivity|].
+  rewrite hdr_of_hdr21 by exact L1. cbn [hdr21 b_crc].
+  rewrite (covered_of_all bs ltac:(lia) bs' Hbl' ltac:(lia)).
+  apply Z.eqb_neq in Hne. rewrite Hne. cbn [negb]. eexists; reflexivity.
+Qed.
+Print Assumptions read_batch_bit_flip.
